@@ -47,6 +47,8 @@ Why(t, w) ==
        THEN "parsed again on the same engine 17 lines further down, the error does not carry the new LineNumber"
   ELSE IF t.errpath # Fld(t, "path", <<>>) THEN "Path is not the path the template was parsed with"
   ELSE IF Fld(t, "wantcause", FALSE) /\ ~t.hascause THEN "the wrapped error is not available through Cause"
+  ELSE IF Fld(t, "wantcausekind", "") # "" /\ "causekind" \in DOMAIN t /\ t.causekind # t.wantcausekind
+       THEN "Cause is not the error that was wrapped (the conversion error / the filter's error)"
   ELSE IF "msgok" \in DOMAIN t /\ ~t.msgok THEN "the message does not name the problem"
   ELSE ""
 
